@@ -13,7 +13,10 @@ HEADER_LINES = 2
 SHRINK = False          # a case is (scenario, schedule); schedules are not line-shrinkable
 CASE_TIMEOUT = 10.0
 MODEL_CASE_TIMEOUT = 10.0
-RULE = ("scenarios = back-end (select/poll/epoll) x loop thread (the creating thread or another one) x 1..3 further "
+RULE = ("loop configuration (socket handle attached or bare loop; every optional callback - wake, add_ctx, release, "
+        "read/msg, close, clear, exit, timer - installed or NULL: all, none, each NULL alone, each installed alone, random "
+        "subsets; bare loops with 0..2 registered contexts) x "
+        "scenarios = back-end (select/poll/epoll) x loop thread (the creating thread or another one) x 1..3 further "
         "threads with scripts over {wake-up, hand-over of a socketpair-backed context, exit} (at least one exit; "
         "exit placed before / around / after the start of run(); poll back-end also with 1..2 context slots so that "
         "registration fails) x seeded random schedules (context-switch density 20/50/80 %) and hand-written window "
@@ -35,6 +38,11 @@ TRUSTED_BASE = [
     "exit status constants re-extracted from event_loop.h into coq/gen/Params_C14.v on every run",
 ]
 ASSUMPTIONS = [
+    "loop configurations: the callback-presence flags and bare/handle mode are part of the model's configuration and every "
+    "theorem quantifies over them; on a bare loop (no handle) the script operation 'hand-over' is executed as a plain "
+    "wake-up by both drivers; with no wake callback installed on a bare loop 'the wake callback runs' is vacuous and the "
+    "clear-up of the signal counts as the service point; read/close/timer callbacks are never invoked in the scenarios "
+    "(silent peers, no timeout) whatever their flag",
     "muggle_evloop_add_ctx only from the loop thread; callbacks do not block (DESIGN.md Appendix B)",
     "the evloop object outlives every muggle_evloop_exit / wakeup / hand-over call (callers join before delete)",
     "contexts handed over after the exit callback has drained the queue stay queued (owner's responsibility): "
@@ -48,6 +56,11 @@ ASSUMPTIONS = [
     "repairs applied",
 ]
 EVIDENCE_NOTES = [
+    "round 3: seeded change C14-5 (poll back-end: WAKE->EXIT promotion skipped when cb_wake is NULL) was missed because "
+    "every scenario installed every callback; the configuration space now covers each optional callback NULL/installed "
+    "and bare loops (corpus matrix cbm-* of 336 cases + generator), the model's promotion step is independent of the "
+    "flags (exit_test_promotes_without_callbacks) and trace acceptance rejects a trace that polls again where the model "
+    "leaves the loop, whether or not a callback line was emitted",
     "exit_returns is mechanised in full: safety (invariant 'EXIT/WAKE pending => a writer is about to signal, or the loop "
     "is past a poll return, or the signal is readable'; poll never finds nothing with an exit pending; the exit test "
     "leaves; never stuck except on a mutex whose holder is enabled; local variant) and liveness exit_returns_fair: under "
@@ -100,8 +113,27 @@ def gen_params(ctx):
 # ---------------------------------------------------------------------------
 # cases
 
-def _mk(name, be, loopthr, hints, scripts, sched, budget=None):
+HANDLE_FLAGS = "warcmt"    # cb_wake cb_add_ctx cb_release cb_close cb_msg cb_timer of the socket handle
+BARE_FLAGS = "wrclxt"      # cb_wake cb_read cb_close cb_clear cb_exit cb_timer of a bare loop
+
+
+def _cb_variants(all_flags):
+    """all installed, none installed, each one NULL alone, each one installed alone"""
+    v = [all_flags, ""]
+    v += [all_flags.replace(ch, "") for ch in all_flags]
+    v += [ch for ch in all_flags]
+    return v
+
+
+def _mk(name, be, loopthr, hints, scripts, sched, budget=None, cb=None):
+    """cb = None (handle attached, every callback installed: the default of both drivers) or
+    (mode, flags, nctx)"""
     lines = ["loop %s %d %d" % (be, loopthr, hints)] + ["thr %s" % (s or "-") for s in scripts]
+    if cb:
+        mode, flags, nctx = cb
+        if mode == "bare":
+            lines = ["thr " + ln[4:].replace("h", "w") if ln.startswith("thr ") else ln for ln in lines]
+        lines.append("cb %s %s %d" % (mode, flags or "-", nctx))
     if budget:
         lines.append("budget %d" % budget)
     lines.append("sched " + sched)
@@ -114,8 +146,29 @@ def corpus_cases(ctx):
     if os.path.isdir(d):
         files = sorted(f for f in os.listdir(d) if f.endswith(".case"))
         if files:
-            return [V.Case.load(os.path.join(d, f)) for f in files]
-    return _builtin_corpus()
+            return [V.Case.load(os.path.join(d, f)) for f in files] + _callback_matrix()
+    return _builtin_corpus() + _callback_matrix()
+
+
+def _callback_matrix():
+    """every optional callback NULL alone / installed alone / all NULL / all installed, handle attached
+    or bare loop, x three back-ends x exit from the loop thread before run() / from the creating
+    thread (racing the start of run()) / from another thread while the loop runs"""
+    cs = []
+    k = 0
+    for be in ("select", "poll", "epoll"):
+        for mode, allf in (("handle", HANDLE_FLAGS), ("bare", BARE_FLAGS)):
+            for fl in _cb_variants(allf):
+                tag = "%s-%s-%s" % (be, mode, fl or "none")
+                nctx = 1 if mode == "bare" else 0
+                k += 1
+                cs.append(_mk("cbm-own-%s" % tag, be, 0, 8, ["wx"], "rand %d 50 0 0" % k, cb=(mode, fl, nctx)))
+                cs.append(_mk("cbm-creator-%s" % tag, be, 1, 8, ["hx", ""], "rand %d 30 0 0" % (k + 7), cb=(mode, fl, nctx)))
+                cs.append(_mk("cbm-other-%s" % tag, be, 0, 8, ["", "wx", "h"], "rand %d 50 0 0" % (k + 13), cb=(mode, fl, nctx)))
+                # the loop is asleep in its poll when another thread asks it to exit
+                cs.append(_mk("cbm-asleep-%s" % tag, be, 1, 8, ["x", ""],
+                              "list - 0 0 1 1 1 1 1 1 1 1 0 0 0 0 0 0 0 0 0 0", cb=(mode, fl, nctx)))
+    return cs
 
 
 def _builtin_corpus():
@@ -163,7 +216,20 @@ def _gen_one(rng, name, be):
     if be == "poll" and rng.chance(1, 3):
         hints = rng.range(1, 2)
     sched = "rand %d %d 0 0" % (rng.below(1 << 30), rng.choice([20, 50, 80]))
-    return _mk(name, be, loopthr, hints, scripts, sched)
+    # loop configuration: which optional callbacks are installed, handle attached or bare loop
+    mode = "bare" if rng.chance(2, 5) else "handle"
+    allf = BARE_FLAGS if mode == "bare" else HANDLE_FLAGS
+    r = rng.below(6)
+    if r < 2:
+        fl = allf
+    elif r == 2:
+        fl = ""
+    elif r < 5:
+        fl = rng.choice(_cb_variants(allf)[2:])
+    else:
+        fl = "".join(ch for ch in allf if rng.chance(1, 2))
+    nctx = rng.range(0, min(2, hints)) if mode == "bare" else 0
+    return _mk(name, be, loopthr, hints, scripts, sched, cb=(mode, fl, nctx))
 
 
 def generate(rng, tier):
@@ -203,6 +269,18 @@ def monitor(case, lines):
             loopthr = w[2]
     if loopthr is None:
         return None
+    mode, flags, nctx = "handle", HANDLE_FLAGS, 0
+    for ln in case.lines:
+        w = ln.split()
+        if w and w[0] == "cb" and len(w) >= 3:
+            mode, flags = w[1], ("" if w[2] == "-" else w[2])
+            nctx = int(w[3]) if len(w) > 3 and mode == "bare" else 0
+    bare = (mode == "bare")
+
+    def has(ch):
+        return ch in flags
+    cleared = {}           # bare loop: context id -> number of clear callbacks
+    exitcb = None          # bare loop: line of the exit callback
     stuck = None
     unserved = None        # line of the first completed wake-up request not yet followed by a wake callback start
     exit_done = None       # line at which an exit request completed
@@ -242,6 +320,10 @@ def monitor(case, lines):
             elif op == "eread" and t == loopthr:
                 clearups += 1
                 loop_prev = "eread"
+                if bare and not has("w"):
+                    unserved = None        # no wake callback installed: the clear-up is all there is to do
+            elif op == "mlock" and bare:
+                return "line %d: lock operation on a bare loop" % i
             elif op == "mlock":
                 if t in pending_h:
                     hand[pending_h.pop(t)]["lock"] = i
@@ -273,7 +355,24 @@ def monitor(case, lines):
                     del exit_pending[t]
                     if exit_done is None:
                         exit_done = i
+            elif what in ("read", "msg", "timer") or (bare and what == "close"):
+                return "line %d: unexpected %s callback (peers are silent, no timeout is set)" % (i, what)
+            elif what == "clear":
+                cid = int(w[3])
+                if not bare or not has("l") or t != loopthr:
+                    return "line %d: clear callback that is not installed / not on the loop thread" % i
+                if exitcb is not None or returned is not None:
+                    return "line %d: clear callback after the exit callback / the return" % i
+                cleared[cid] = cleared.get(cid, 0) + 1
+                if cleared[cid] > 1 or cid >= nctx:
+                    return "line %d: context %d cleared twice / unknown" % (i, cid)
+            elif what == "exitcb":
+                if not bare or not has("x") or t != loopthr or exitcb is not None or returned is not None:
+                    return "line %d: exit callback not installed / twice / after the return / not on the loop thread" % i
+                exitcb = i
             elif what in ("addctx", "release", "free", "close"):
+                if (what == "addctx" and not has("a")) or (what == "release" and not has("r")) or bare:
+                    return "line %d: callback %s ran although it is not installed" % (i, what)
                 cid = int(w[3])
                 h = hand.get(cid)
                 if h is None:
@@ -296,18 +395,33 @@ def monitor(case, lines):
                         return "line %d: context %d released twice" % (i, cid)
                 elif what == "free":
                     h["free"] += 1
-                    if h["rel"] != 1:
+                    if has("r") and h["rel"] != 1:
                         return "line %d: context %d freed without exactly one release" % (i, cid)
+                    if h["free"] > 1:
+                        return "line %d: context %d freed twice" % (i, cid)
                 elif what == "close":
                     return "line %d: unexpected close callback for context %d (peers are silent)" % (i, cid)
             elif what == "wake":
                 wake_notes += 1
                 if t != loopthr:
                     return "line %d: wake callback on thread %s" % (i, t)
+                if not has("w"):
+                    return "line %d: wake callback ran although it is not installed" % i
+                if bare:
+                    if loop_prev != "eread":
+                        return "line %d: wake callback without a preceding clear-up of the signal" % i
+                    loop_prev = "wake"
+                    unserved = None
             elif what == "returned":
                 returned = i
-                if exit_lock is None:
+                if t != loopthr:
+                    return "line %d: run() returned on thread %s" % (i, t)
+                if not bare and exit_lock is None:
                     return "line %d: run() returned without the exit callback" % i
+                if bare and has("x") and exitcb is None:
+                    return "line %d: run() returned without the exit callback" % i
+                if bare and has("l") and sorted(cleared) != list(range(nctx)):
+                    return "line %d: run() returned with %d of %d registered contexts cleared" % (i, len(cleared), nctx)
                 if exit_done is None and not exit_pending:
                     return "line %d: run() returned although no exit was requested" % i
     if stuck:
@@ -323,7 +437,7 @@ def monitor(case, lines):
         return "no summary line"
     if exit_done is not None and (returned is None or m.group(1) != "1"):
         return "exit request completed at line %d but run() did not return" % exit_done
-    if wake_notes != clearups or wake_starts != clearups:
+    if (has("w") and wake_notes != clearups) or (not bare and wake_starts != clearups):
         return "%d signal clear-ups, %d wake callback starts, %d wake callbacks completed" % (clearups, wake_starts, wake_notes)
     late = 0
     for cid, h in sorted(hand.items()):
@@ -336,7 +450,7 @@ def monitor(case, lines):
             if h["add"] or h["rel"] or h["free"]:
                 return "context %d was handed over after the exit callback but was still processed" % cid
             continue
-        if h["rel"] != 1 or h["free"] != 1:
+        if (has("r") and h["rel"] != 1) or h["free"] != 1:
             return ("context %d (handed over at line %d, before the exit callback): registered %d time(s), released %d, "
                     "freed %d - must be released and freed exactly once by the time run() returns"
                     % (cid, h["line"], h["reg"], h["rel"], h["free"]))
